@@ -7,18 +7,19 @@ Local Arguments N.eqb : simpl never.
 Local Arguments mem : simpl never.
 Local Arguments Nat.ltb : simpl never.
 
-(* ------------------------------------------------------------------ the recorded finding *)
-(* {(1,10)} vs {(2,20)} in a trie keyed on the first column: one child only on each side, so
-   both flags are set and the final match reaches unreachable!().  The two row sets are
-   incomparable: the specified answer is None. *)
+(* ------------------------------------------------------------------ former finding (fixed)
+   Before repo commit 40ab16e7935 GhtInner::partial_cmp had no early `return None`: on
+   {(1,10)} vs {(2,20)} in a trie keyed on the first column (one child only on each side) both
+   flags were set and the final match reached unreachable!().  The former witness
+     a = insert 1 0 (empty 1) [1; 10],  b = insert 1 0 (empty 1) [2; 20],
+     pcmp 1 a b = PPanic  while  subset_cmp (riter 1 a) (riter 1 b) = PNone
+   was the theorem C08_pcmp_refuted; it is kept as corpus/C08/pcmp_incomparable.json and
+   re-checked first on every run.  With the fix transcribed, [pcmp_spec] below holds for all
+   well-formed tries and never yields PPanic. *)
 Definition pcmp_wit_a : ght := insert 1 0 (empty 1) [1; 10]%N.
 Definition pcmp_wit_b : ght := insert 1 0 (empty 1) [2; 20]%N.
-
-Lemma pcmp_refuted :
-  exists h a b,
-    a = insert h 0 (empty h) [1; 10]%N /\ b = insert h 0 (empty h) [2; 20]%N /\
-    pcmp h a b = PPanic /\ subset_cmp (riter h a) (riter h b) = PNone.
-Proof. exists 1, pcmp_wit_a, pcmp_wit_b. repeat split; vm_compute; reflexivity. Qed.
+Lemma pcmp_former_witness : pcmp 1 pcmp_wit_a pcmp_wit_b = PNone.
+Proof. vm_compute. reflexivity. Qed.
 
 (* ------------------------------------------------------------------ well-formed tries
    [wf h d t]: t has the shape of a trie of height h whose root is keyed on column d; children
@@ -203,15 +204,14 @@ Proof.
 Qed.
 
 (* ------------------------------------------------------------------ partial_cmp *)
-(* what a comparison result says about the two row sets; a panic only ever happens on
-   incomparable sets, where the specified answer is None *)
+(* what a comparison result says about the two row sets; a panic never happens *)
 Definition cmp_rel (A B : list row) (p : pres) : Prop :=
   match p with
   | PSome Eq => incl A B /\ incl B A
   | PSome Lt => incl A B /\ ~ incl B A
   | PSome Gt => incl B A /\ ~ incl A B
   | PNone => ~ incl A B /\ ~ incl B A
-  | PPanic => ~ incl A B /\ ~ incl B A
+  | PPanic => False
   end.
 
 Lemma hs_contains_in s r : hs_contains s r = true <-> In r s.
@@ -316,42 +316,49 @@ Section Loop.
 
   Lemma pcmp_loop_spec ks : forall sag oag,
     (forall k, In k ks -> In k (map fst ca) \/ In k (map fst cb)) ->
-    (sag = true -> EG) -> (oag = true -> EL) ->
+    (sag = true -> EG) -> (oag = true -> EL) -> ~ (sag = true /\ oag = true) ->
     let res := pcmp_loop (pcmp h) ca cb ks sag oag in
-    (exists sag' oag', res = flagres sag' oag' /\
+    (exists sag' oag', res = flagres sag' oag' /\ ~ (sag' = true /\ oag' = true) /\
        (sag' = true -> EG) /\ (oag' = true -> EL) /\
        (sag' = false -> sag = false /\ forall k, In k ks -> AB k) /\
        (oag' = false -> oag = false /\ forall k, In k ks -> BA k))
-    \/ ((res = PNone \/ res = PPanic) /\ EG /\ EL).
+    \/ (res = PNone /\ EG /\ EL).
   Proof.
-    induction ks as [|k ks IHks]; intros sag oag K Hs Ho; cbn zeta.
+    induction ks as [|k ks IHks]; intros sag oag K Hs Ho Nb; cbn zeta.
     - left. exists sag, oag. cbn. repeat split; try assumption; intros ? [].
-    - cbn [pcmp_loop].
+    - cbn [pcmp_loop]. cbn zeta.
       assert (K' : forall k0, In k0 ks -> In k0 (map fst ca) \/ In k0 (map fst cb))
         by (intros k0 i; apply K; right; assumption).
       (* what the rest of the loop gives, once this key is accounted for *)
       assert (Step : forall sag1 oag1,
                  (sag1 = true -> EG) -> (oag1 = true -> EL) ->
                  (sag1 = false -> sag = false /\ AB k) -> (oag1 = false -> oag = false /\ BA k) ->
-                 let res := pcmp_loop (pcmp h) ca cb ks sag1 oag1 in
-                 (exists sag' oag', res = flagres sag' oag' /\
+                 let res := if sag1 && oag1 then PNone
+                            else pcmp_loop (pcmp h) ca cb ks sag1 oag1 in
+                 (exists sag' oag', res = flagres sag' oag' /\ ~ (sag' = true /\ oag' = true) /\
                     (sag' = true -> EG) /\ (oag' = true -> EL) /\
                     (sag' = false -> sag = false /\ forall k0, In k0 (k :: ks) -> AB k0) /\
                     (oag' = false -> oag = false /\ forall k0, In k0 (k :: ks) -> BA k0))
-                 \/ ((res = PNone \/ res = PPanic) /\ EG /\ EL)).
+                 \/ (res = PNone /\ EG /\ EL)).
       { intros sag1 oag1 Hs1 Ho1 Bs Bo. cbn zeta.
-        destruct (IHks sag1 oag1 K' Hs1 Ho1) as [(s' & o' & E & Gs & Go & Ps & Po)|R]; [left|right; exact R].
-        exists s', o'. split; [exact E|]. split; [exact Gs|]. split; [exact Go|]. split.
-        - intros e. destruct (Ps e) as [e1 A]. destruct (Bs e1) as [e0 Ak]. split; [exact e0|].
-          intros k0 [<-|i]; [exact Ak|apply A, i].
-        - intros e. destruct (Po e) as [e1 A]. destruct (Bo e1) as [e0 Bk]. split; [exact e0|].
-          intros k0 [<-|i]; [exact Bk|apply A, i]. }
+        destruct (sag1 && oag1) eqn:Both.
+        - apply andb_true_iff in Both as [e1 e2]. right. auto.
+        - assert (Nb1 : ~ (sag1 = true /\ oag1 = true)).
+          { intros [e1 e2]. rewrite e1, e2 in Both. discriminate. }
+          destruct (IHks sag1 oag1 K' Hs1 Ho1 Nb1) as [(s' & o' & E & Nb' & Gs & Go & Ps & Po)|R];
+            [left|right; exact R].
+          exists s', o'. split; [exact E|]. split; [exact Nb'|]. split; [exact Gs|]. split; [exact Go|]. split.
+          + intros e. destruct (Ps e) as [e1 A]. destruct (Bs e1) as [e0 Ak]. split; [exact e0|].
+            intros k0 [<-|i]; [exact Ak|apply A, i].
+          + intros e. destruct (Po e) as [e1 A]. destruct (Bo e1) as [e0 Bk]. split; [exact e0|].
+            intros k0 [<-|i]; [exact Bk|apply A, i]. }
       destruct (cget ca k) as [x|] eqn:Ga, (cget cb k) as [y|] eqn:Gb.
       + destruct (@child_wf ca k x Fa Ga) as [Wx _], (@child_wf cb k y Fb Gb) as [Wy _].
         pose proof (IH x y Wx Wy) as C.
         assert (Ea : crows h ca k = riter h x) by (unfold crows; rewrite Ga; reflexivity).
         assert (Eb : crows h cb k = riter h y) by (unfold crows; rewrite Gb; reflexivity).
-        destruct (pcmp h x y) as [[| |]| |]; cbn [cmp_rel] in C; destruct C as [C1 C2].
+        destruct (pcmp h x y) as [[| |]| |]; cbn [cmp_rel] in C; [| | | |contradiction];
+          destruct C as [C1 C2].
         * (* Equal *) apply Step; try assumption.
           -- intros e. split; [exact e|]. unfold AB. rewrite Ea, Eb. exact C1.
           -- intros e. split; [exact e|]. unfold BA. rewrite Ea, Eb. exact C2.
@@ -363,8 +370,7 @@ Section Loop.
           -- intros _. exists k. unfold AB. rewrite Ea, Eb. exact C2.
           -- discriminate.
           -- intros e. split; [exact e|]. unfold BA. rewrite Ea, Eb. exact C1.
-        * right. split; [left; reflexivity|]. split; exists k; [unfold AB|unfold BA]; rewrite Ea, Eb; assumption.
-        * right. split; [right; reflexivity|]. split; exists k; [unfold AB|unfold BA]; rewrite Ea, Eb; assumption.
+        * right. split; [reflexivity|]. split; exists k; [unfold AB|unfold BA]; rewrite Ea, Eb; assumption.
       + (* only self has the key *)
         destruct (@child_wf ca k x Fa Ga) as [_ NE].
         assert (Ea : crows h ca k = riter h x) by (unfold crows; rewrite Ga; reflexivity).
@@ -400,7 +406,7 @@ Proof.
     + pose proof (@pcmp_loop_spec h d ca cb (IH (S d)) Fa Fb (map fst ca ++ map fst cb) false false) as L.
       assert (Kall : forall k, In k (map fst ca ++ map fst cb) -> In k (map fst ca) \/ In k (map fst cb))
         by (intros k i; apply in_app_iff in i; exact i).
-      specialize (L Kall ltac:(discriminate) ltac:(discriminate)). cbn zeta beta in L.
+      specialize (L Kall ltac:(discriminate) ltac:(discriminate) ltac:(intros [? ?]; discriminate)). cbn zeta beta in L.
       pose proof (@incl_rows_crows h d ca cb nda Fa ndb Fb) as IAB.
       pose proof (@incl_rows_crows h d cb ca ndb Fb nda Fa) as IBA.
       assert (Out : forall ch k, ~ In k (map fst ch) -> crows h ch k = []).
@@ -411,7 +417,7 @@ Proof.
       assert (ELn : (exists k, ~ incl (crows h cb k) (crows h ca k)) ->
                     ~ incl (riter (S h) (Inner cb)) (riter (S h) (Inner ca))).
       { intros [k n] I. apply n. apply IBA, I. }
-      destruct L as [(s' & o' & E & Gs & Go & Ps & Po)|[[E|E] [G1 G2]]].
+      destruct L as [(s' & o' & E & Nb & Gs & Go & Ps & Po)|[E [G1 G2]]].
       * rewrite E.
         assert (AllA : s' = false -> incl (riter (S h) (Inner ca)) (riter (S h) (Inner cb))).
         { intros e. apply IAB. intros k. destruct (Ps e) as [_ A].
@@ -422,7 +428,6 @@ Proof.
           destruct (in_dec N.eq_dec k (map fst ca ++ map fst cb)) as [i|n]; [apply A, i|].
           rewrite in_app_iff in n. rewrite (Out cb k) by tauto. intros r0 []. }
         destruct s', o'; cbn [flagres cmp_rel]; auto.
-      * rewrite E. cbn. auto.
       * rewrite E. cbn. auto.
 Qed.
 
@@ -1002,10 +1007,8 @@ Definition Rg (nk arity : nat) (t : ght) (hist : bag) : Prop :=
 Definition Rg2 nk arity (p : ght * ght) (q : bag * bag) : Prop :=
   Rg nk arity (fst p) (fst q) /\ Rg nk arity (snd p) (snd q).
 
-(* an answer of the model is the specified one, or it is the recorded exception: a panic
-   where None is specified *)
-Definition gans_ok (m s : gans) : Prop :=
-  gans_eqb false m s = true \/ (m = GACmp PPanic /\ s = GACmp PNone).
+(* an answer of the model is the specified one (row lists up to permutation) *)
+Definition gans_ok (m s : gans) : Prop := gans_eqb m s = true.
 
 Lemma Rg_sel nk a w p q : Rg2 nk a p q -> Rg nk a (sel w p) (sel w q).
 Proof. intros [R0 R1]. destruct w; assumption. Qed.
@@ -1037,7 +1040,7 @@ Proof.
     pose proof (@Rg_sel nk a w p q R2) as Rw; pose proof (@Rg_sel nk a (negb w) p q R2) as Ro;
     pose proof Rw as (Ww & Mw & Fw); pose proof Ro as (Wo & Mo & Fo).
   - (* insert *)
-    cbn [fst snd]. split; [|left; reflexivity]. apply Rg_upd; [assumption|].
+    cbn [fst snd]. split; [|reflexivity]. apply Rg_upd; [assumption|].
     destruct (insert_spec nk 0 (sel w p) r Ww) as [W' M']. split; [assumption|split].
     + intros x. rewrite M', in_app_iff, Mw. cbn. intuition.
     + apply Forall_app. split; [assumption|]. constructor; [apply Nat.eqb_eq, ok|constructor].
@@ -1047,23 +1050,23 @@ Proof.
     + apply Rg_upd; [assumption|]. split; [assumption|split].
       * intros x. rewrite M', in_app_iff, Mw, Mo. tauto.
       * apply Forall_app. split; assumption.
-    + left. cbn. rewrite Fl', (@subset_b_equiv _ _ _ _ Mo Mw). apply eqb_reflx.
+    + unfold gans_ok. cbn. rewrite Fl', (@subset_b_equiv _ _ _ _ Mo Mw). apply eqb_reflx.
   - (* contains *)
-    cbn [fst snd]. split; [assumption|]. left. cbn. apply eqb_true_of_eq, eq_iff_eq_true.
+    cbn [fst snd]. split; [assumption|]. unfold gans_ok. cbn. apply eqb_true_of_eq, eq_iff_eq_true.
     rewrite (contains_spec nk 0 (sel w p) r Ww), Mw, mem_in. tauto.
   - (* recursive_iter *)
-    cbn [fst snd]. split; [assumption|]. left. cbn. apply nodup_bag_eqb.
+    cbn [fst snd]. split; [assumption|]. unfold gans_ok. cbn. apply nodup_bag_eqb.
     + apply (riter_nodup nk 0 _ Ww).
     + apply distinct_nodup.
     + intros x. rewrite in_distinct. apply Mw.
   - (* prefix_iter *)
-    cbn [fst snd]. split; [assumption|]. left. cbn.
+    cbn [fst snd]. split; [assumption|]. unfold gans_ok. cbn.
     destruct (prefix_iter_spec nk 0 (sel w p) pr Ww (@Rg_len nk a _ _ Lnk Rw)) as [ndp M]. apply nodup_bag_eqb.
     + assumption.
     + apply NoDup_filter, distinct_nodup.
     + intros x. rewrite M, filter_In, in_distinct, Mw. cbn [skipn]. tauto.
   - (* find_containing_leaf *)
-    cbn [fst snd]. split; [assumption|]. left. cbn.
+    cbn [fst snd]. split; [assumption|]. unfold gans_ok. cbn.
     assert (Lr : length r = a) by (apply Nat.eqb_eq, ok).
     pose proof (find_leaf_spec nk 0 (sel w p) r Ww (@Rg_len nk a _ _ Lnk Rw) ltac:(lia)) as S.
     destruct (find_leaf nk 0 (sel w p) r) as [L|].
@@ -1083,24 +1086,24 @@ Proof.
       try (assert (N2 : ~ incl (riter nk (sel (negb w) p)) (riter nk (sel w p)))
              by (intros I; apply subset_b_spec in I; congruence));
       destruct (pcmp nk (sel w p) (sel (negb w) p)) as [[| |]| |]; cbn [cmp_rel] in C;
-      try (left; reflexivity); try (right; split; reflexivity); exfalso; tauto.
+      unfold gans_ok; try reflexivity; exfalso; tauto.
   - (* == *)
-    cbn [fst snd]. split; [assumption|]. left. cbn. apply eqb_true_of_eq, eq_iff_eq_true.
+    cbn [fst snd]. split; [assumption|]. unfold gans_ok. cbn. apply eqb_true_of_eq, eq_iff_eq_true.
     rewrite (peq_spec nk 0 _ _ Ww Wo), set_eqb_spec. split.
     + intros [I J] r. apply mem_ext. rewrite <- Mw, <- Mo. split; [apply I|apply J].
     + intros H. split; intros x i; [apply Mo|apply Mw]; apply mem_in;
         [rewrite <- H|rewrite H]; apply mem_in; [apply Mw|apply Mo]; assumption.
   - (* height *)
-    cbn [fst snd]. split; [assumption|]. left. cbn. apply N.eqb_refl.
+    cbn [fst snd]. split; [assumption|]. unfold gans_ok. cbn. apply N.eqb_refl.
   - (* is_bot *)
-    cbn [fst snd]. split; [assumption|]. left. cbn. apply eqb_true_of_eq, eq_iff_eq_true.
+    cbn [fst snd]. split; [assumption|]. unfold gans_ok. cbn. apply eqb_true_of_eq, eq_iff_eq_true.
     rewrite (is_bot_spec nk 0 _ Ww), Nat.eqb_eq, length_zero_iff_nil. split.
     + intros E. destruct (sel w q) as [|x l]; [reflexivity|]. exfalso.
       assert (i : In x (riter nk (sel w p))) by (apply Mw; left; reflexivity). rewrite E in i. exact i.
     + intros E. destruct (riter nk (sel w p)) as [|x l] eqn:E'; [reflexivity|]. exfalso.
       assert (i : In x (sel w q)) by (apply Mw; left; reflexivity). rewrite E in i. exact i.
   - (* deep join *)
-    cbn [fst snd]. split; [assumption|]. left. cbn.
+    cbn [fst snd]. split; [assumption|]. unfold gans_ok. cbn.
     destruct (deep_join_spec nk 0 nk (sel w p) (sel (negb w) p) Ww Wo
                 (@Rg_len nk a _ _ Lnk Rw) (@Rg_len nk a _ _ Lnk Ro)) as [W' M'].
     apply nodup_bag_eqb; [apply (riter_nodup_w nk 0 _ W')|apply distinct_nodup|].
@@ -1108,7 +1111,7 @@ Proof.
     split; intros (x & y & ix & iy & e & ->); exists x, y;
       (split; [apply Mw, ix|split; [apply Mo, iy|auto]]).
   - (* cartesian product *)
-    cbn [fst snd]. split; [assumption|]. left. cbn. unfold cart_product.
+    cbn [fst snd]. split; [assumption|]. unfold gans_ok. cbn. unfold cart_product.
     destruct (insert_all nko (flat_map (fun x => map (fun y => x ++ y) (riter nk (sel (negb w) p)))
                                        (riter nk (sel w p))) (empty nko) (wf_empty nko 0)) as [W' M'].
     apply nodup_bag_eqb; [apply (riter_nodup nko 0 _ W')|apply distinct_nodup|].
@@ -1131,8 +1134,8 @@ Proof.
   constructor; [assumption|]. apply IH; [|assumption]. intros o' i. apply F. right. assumption.
 Qed.
 
-(* Every answer of every insert/merge/lookup/compare history on two tries of any height is the
-   answer of the plain set of rows -- except that partial_cmp may panic where None is specified. *)
+(* Every answer of every insert/merge/lookup/compare/join history on two tries of any height is
+   the answer of the plain set of rows. *)
 Theorem ght_history_refines nk a ops :
   gops_ok nk a ops = true ->
   Forall2 gans_ok (gmodel_run nk ops) (gspec_run nk ops).
@@ -1154,7 +1157,7 @@ Definition gans_equiv (x y : gans) : Prop :=
   | _, _ => x = y
   end.
 
-Lemma gans_eqb_spec x y : gans_eqb false x y = true <-> gans_equiv x y.
+Lemma gans_eqb_spec x y : gans_eqb x y = true <-> gans_equiv x y.
 Proof.
   destruct x as [b|n|l|[l|]|c], y as [b'|n'|l'|[l'|]|c']; cbn;
     try (split; [discriminate|congruence]); try tauto;
@@ -1163,12 +1166,12 @@ Proof.
   - rewrite N.eqb_eq. split; congruence.
   - rewrite bag_eqb_spec. apply cnt_perm.
   - rewrite bag_eqb_spec. apply cnt_perm.
-  - rewrite orb_false_r. destruct c as [[| |]| |], c' as [[| |]| |]; cbn;
+  - destruct c as [[| |]| |], c' as [[| |]| |]; cbn;
       split; try discriminate; try reflexivity; try congruence.
 Qed.
 
 Lemma ganswers_eqb_spec xs : forall ys,
-  ganswers_eqb false xs ys = true <-> Forall2 gans_equiv xs ys.
+  ganswers_eqb xs ys = true <-> Forall2 gans_equiv xs ys.
 Proof.
   induction xs as [|x xs IH]; intros [|y ys]; cbn.
   - split; [constructor|reflexivity].
@@ -1195,4 +1198,23 @@ Proof.
   change (flat_map (fun x => map (fun y => x ++ y) (riter h b)) (riter h a))
     with (cart_spec (riter h a) (riter h b)).
   rewrite in_cart_spec. cbn. tauto.
+Qed.
+
+Lemma ght_history_equiv nk a ops :
+  gops_ok nk a ops = true -> Forall2 gans_equiv (gmodel_run nk ops) (gspec_run nk ops).
+Proof.
+  intros ok. pose proof (ght_history_refines nk a ops ok) as H.
+  induction H; constructor; [apply gans_eqb_spec; assumption|assumption].
+Qed.
+
+(* partial_cmp IS the subset comparison of the row sets, for all well-formed tries *)
+Theorem pcmp_is_subset_cmp h d a b :
+  wf h d a -> wf h d b -> pcmp h a b = subset_cmp (riter h a) (riter h b).
+Proof.
+  intros Wa Wb. pose proof (pcmp_spec h d a b Wa Wb) as C. unfold subset_cmp.
+  destruct (subset_b (riter h a) (riter h b)) eqn:S1, (subset_b (riter h b) (riter h a)) eqn:S2;
+    try apply subset_b_spec in S1; try apply subset_b_spec in S2;
+    try (assert (N1 : ~ incl (riter h a) (riter h b)) by (intros I; apply subset_b_spec in I; congruence));
+    try (assert (N2 : ~ incl (riter h b) (riter h a)) by (intros I; apply subset_b_spec in I; congruence));
+    destruct (pcmp h a b) as [[| |]| |]; cbn [cmp_rel] in C; try reflexivity; exfalso; tauto.
 Qed.
